@@ -377,17 +377,6 @@ func PadToMultiple(x []byte, n int) []byte {
 	return append(x, padding...)
 }
 
-func convertMapToLookup(m map[types.OpaqueHash]types.OpaqueHash) types.SegmentRootLookup {
-	lookup := make(types.SegmentRootLookup, 0, len(m))
-	for wpHash, segmentRoot := range m {
-		lookup = append(lookup, types.SegmentRootLookupItem{
-			WorkPackageHash: types.WorkPackageHash(wpHash),
-			SegmentTreeRoot: segmentRoot,
-		})
-	}
-	return lookup
-}
-
 func extractExtrinsicMapFromBundle(workPackage *types.WorkPackage, extrinsics types.ExtrinsicDataList) (PVM.ExtrinsicDataMap, error) {
 	specs := FlattenExtrinsicSpecs(workPackage)
 
